@@ -2149,8 +2149,9 @@ pub fn set_index(
                     }
                     Ok(())
                 } else {
-                    todo!("assgn to slice")
-                    // set_index(pythonic_mut(&mut Rc::make_mut(v), i)?, rest, value)
+                    Err(NErr::type_error(format!(
+                        "can't assign to a list slice (not implemented) except with every"
+                    )))
                 }
             }
             (Seq::String(s), EvaluatedIndexOrSlice::Index(i)) if rest.is_empty() => match value {
